@@ -3,5 +3,7 @@ CONSTANTS
   Cap = 1
   L = 3
   MaxBlocked = 2
+  MaxBurst = 1
+  Fills = {0}
 INVARIANT Emit
 CHECK_DEADLOCK FALSE
